@@ -232,19 +232,31 @@ class BufOps:
                     # &B[a..b] with constants defines a slice of exact length
                     ex = self._range_len(c.args[1])
                     if ex is not None and len(c.dest) == 1:
-                        # the named local that receives the slice
-                        for b2 in fn.reachable:
-                            for st in fn.stmts(b2):
-                                if st["k"] == "assign" and len(st["lhs"]) == 1 and fn.local_name(st["lhs"][0]):
+                        # the named local that receives the slice, directly or through reborrows / moves of unnamed temporaries (the
+                        # argument of an inlined helper lands in its parameter that way)
+                        carriers = {c.dest[0]}
+                        grew = True
+                        while grew:
+                            grew = False
+                            for b2 in fn.reachable:
+                                for st in fn.stmts(b2):
+                                    if st["k"] != "assign" or len(st["lhs"]) != 1:
+                                        continue
                                     rv = st["rv"]
                                     src = None
-                                    if rv["k"] == "use":
+                                    if rv["k"] == "use" and op_place(rv["a"]) is not None and len(op_place(rv["a"])) == 1:
                                         src = op_base(rv["a"])
-                                    elif rv["k"] == "ref":
+                                    elif rv["k"] == "ref" and all(x == "*" for x in rv["p"][1:]):
                                         src = rv["p"][0]
-                                    if src == c.dest[0]:
+                                    if src not in carriers:
+                                        continue
+                                    dst = st["lhs"][0]
+                                    if fn.local_name(dst):
                                         from .panics import place_sig as _ps
-                                        self.exact[_ps(fn, [st["lhs"][0]])] = (b2, ex)
+                                        self.exact[_ps(fn, [dst])] = (b2, ex)
+                                    elif dst not in carriers and len(fn.defs.get(dst, ())) == 1:
+                                        carriers.add(dst)
+                                        grew = True
                 continue
             # Vec::remove(i) / insert / swap_remove / split_at ...
             m = re.match(r"^alloc::vec::Vec::<T, A>::(remove|swap_remove)$", nm)
